@@ -24,6 +24,7 @@ TRUSTED = {
     "brev": "b[::-1]: length, involution, element positions",
     "brep": "bytes([c]) * k: length max(k,0), every element c; b == bytes([c])*(len(b)-len(b.lstrip(c))) + b.lstrip(c); (bytes([c])*z + e).lstrip(c) == e when e is empty or e[0] != c",
     "bitfield": "(derived, integer arithmetic) E % 2**(a+w) == E % 2**a + ((E // 2**a) % 2**w) * 2**a",
+    "slice-tiling": "(derived, sequence theory) c == c[:o] + c[o:] for 0 <= o <= len(c)",
     "byte-range": "every element of a bytes object is in range(256)",
 }
 
@@ -95,6 +96,8 @@ class Axioms:
         self.no_concat_law = False
         self.own_quants = {}
         self.lstrips = []
+        self.bes = []
+        self.len_facts = {}    # id -> (Length(x), IntVal(K)) for hypotheses  len(x) == K
         self.breps = []
         self.fuel = 1          # unfolding depth for recursive spec functions (terms of the query itself: depth 1)
         self._round = 0
@@ -107,6 +110,13 @@ class Axioms:
             self._round = rnd
             terms = []
             quants = []
+            for f in frontier:
+                if z3.is_eq(f) and f.num_args() == 2:
+                    l_, r_ = f.arg(0), f.arg(1)
+                    if z3.is_int_value(l_):
+                        l_, r_ = r_, l_
+                    if z3.is_int_value(r_) and z3.is_app_of(l_, z3.Z3_OP_SEQ_LENGTH):
+                        self.len_facts[l_.get_id()] = (l_, r_)
             for f in frontier:
                 _subterms(f, self.seen, terms, quants)
             new = []
@@ -169,6 +179,18 @@ class Axioms:
                 else:
                     out.append(z3.Implies(n >= 1, z3.And(b[n - 1] * pow_term(256, n - 1) <= t,
                                                          t < (b[n - 1] + 1) * pow_term(256, n - 1))))
+                # a shorter big-endian string is a smaller number than a longer one without a leading zero byte
+                # (derived from the two bounds above and monotonicity of 256**k; given directly to spare the solver
+                # the nonlinear detour)
+                if name == "be" and len(self.bes) < 12:
+                    for (b2, t2) in self.bes:
+                        n2 = z3.Length(b2)
+                        out.append(z3.Implies(z3.And(n < n2, b2[0] >= 1), t < t2))
+                        out.append(z3.Implies(z3.And(n2 < n, b[0] >= 1), t2 < t))
+                    self.bes.append((b, t))
+                    if z3.is_app_of(b, z3.Z3_OP_SEQ_EXTRACT):
+                        c_, o_, l_ = b.children()
+                        out.append(z3.Implies(z3.And(o_ >= 0, l_ >= 1, o_ + l_ <= z3.Length(c_)), b[0] == c_[o_]))
                 # concat law
                 if z3.is_app_of(b, z3.Z3_OP_SEQ_CONCAT) and not self.no_concat_law:
                     parts = b.children()
@@ -239,9 +261,11 @@ class Axioms:
                     for K in (1, 2, 4, 8, 16, 31, 32, 33, 40, 63, 64, 128, 255, 256, 264, 512):
                         out.append(z3.Implies(e >= K, t >= bv ** K))
                         out.append(z3.Implies(z3.And(e >= 0, e <= K), t <= bv ** K))
-                    if bv in (2, 256):
-                        for K in range(3, 41):
-                            out.append(z3.Implies(e == K, t == bv ** K))
+                    # exact value when the exponent is fixed by length facts of the query (len(x) == K)
+                    if self.len_facts and not z3.is_int_value(e):
+                        e2 = z3.simplify(z3.substitute(e, *self.len_facts.values()))
+                        if z3.is_int_value(e2) and 0 <= e2.as_long() <= 4096:
+                            out.append(z3.Implies(e == e2, t == bv ** e2.as_long()))
                 # monotonicity against the other powers of the same base seen so far
                 key = str(b)
                 others = self.pows.setdefault(key, [])
@@ -347,6 +371,12 @@ class Axioms:
                 b = ch[0]
                 out.append(z3.Length(t) == z3.Length(b))
                 out.append(sym.F_rev(t) == b)
+        elif k == z3.Z3_OP_SEQ_EXTRACT and t.sort() == BytesS:
+            # a suffix and the matching prefix tile the sequence:  c == c[:o] + c[o:]   (sequence theory fact)
+            c_, o_, l_ = ch
+            if not z3.is_int_value(o_) and z3.is_true(z3.simplify(o_ + l_ == z3.Length(c_))):
+                self.used.add("slice-tiling")
+                out.append(z3.Implies(z3.And(o_ >= 0, o_ <= z3.Length(c_)), c_ == z3.Concat(z3.Extract(c_, lit(0), o_), t)))
         elif k == z3.Z3_OP_MOD and len(ch) == 2 and z3.is_int_value(ch[1]) and z3.is_app_of(ch[0], z3.Z3_OP_IDIV):
             # bit field (E div 2**a) mod 2**w: the fields of E tile it.  An identity of integer arithmetic
             # (not an assumption), instantiated to spare the solver the case analysis:
